@@ -124,6 +124,19 @@ def sec6():
         'message structs and no narrowing of the type code (C14); control frames bound by the limit (C15); kill switch',
         'recorded before the handler starts (C16); invocation goroutines never block on the peer alone, one timer per wait',
         '(C17); and removal/timer/policy/shutdown-flag/local-copy rules shared between C01, C02, C03, C04, C05, C06, C13, C18.',
+        'Round 3 asked for changes in other layers (wamp/, transport/, serialize/, auth/, configuration plumbing), values',
+        'used under the wrong key/role/unit, siblings made to disagree, boundaries, and hand-overs moved by one statement.',
+        'First run: 19 of 60 missed outright, 10 caught only by a neighbour. New rules: only the in-process peer is local',
+        '(C09, C10); random buffers have their full length (C09); the feature table is per role and records true values only',
+        '(C02, C03, C12, C13); endSession never passes a nil goodbye (C02, C05); the realm table is written only after',
+        'newRealm succeeded (C11); broker and dealer get the realm\'s options in the right positions (C11, C19); codec option',
+        'audit and integer-only type codes (C14); SyncIDGen returns the value drawn under its lock, the client reads numbers',
+        'tolerantly (C16); keep-alive closes the connection, payloads decode into values or nil-checked pointers (C15, C17);',
+        'testament buckets per scope and written back (C05, C18); last received id (C19); template realms keep their',
+        'Authorizer (C10); identity order, match predicates and match functions shared with C01, C18, C20.',
+        'Reading for these rounds also turned up four more genuine defects, all reproduced and repaired: D31 (sub-agent',
+        'remark while working on C02), D32–D34 (sub-agent remarks while working on C06; D32 is very likely the cause of the',
+        'occasional hang of the repository\'s own TestClientRace under load).',
         'Variants that could not be kept: three "kill_all keeps the wrong session" variants fail the existing suite when',
         'ported to the repaired tree; two C17 variants fail the suite; one C06 variant stopped being a violation after the',
         'D4 repair (the timers are now joined).']
